@@ -85,6 +85,92 @@ type State struct {
 	clockMayAdvance bool
 	race         *raceState
 	pureResult   Value
+	// undo journal of the instruction being executed: a fork re-executes the instruction in a clone, which must start
+	// from the state the instruction started in (not from whatever the handler had already mutated before deciding)
+	jHeap     []heapUndo
+	jHeapLen  int
+	jLocks    []lockUndo
+	jG        []G
+	jCovered  []string
+	jPreempts int
+}
+
+type heapUndo struct {
+	obj int
+	old Value
+}
+type lockUndo struct {
+	key     string
+	old     lockSt
+	existed bool
+}
+
+func (st *State) beginStep() {
+	st.log = st.log[:0]
+	st.pcMark = len(st.pc)
+	st.nvarsMark = st.nvars
+	st.namedMark = len(st.named)
+	st.traceMark = len(st.trace)
+	st.jHeap = st.jHeap[:0]
+	st.jHeapLen = len(st.heap)
+	st.jLocks = st.jLocks[:0]
+	st.jCovered = st.jCovered[:0]
+	st.jPreempts = st.preempts
+	st.jG = st.jG[:0]
+	for _, g := range st.gs {
+		st.jG = append(st.jG, *g)
+	}
+}
+
+func (st *State) setHeap(i int, v Value) {
+	if i < st.jHeapLen {
+		st.jHeap = append(st.jHeap, heapUndo{i, st.heap[i]})
+	}
+	st.heap[i] = v
+}
+
+func (st *State) setLock(key string, l lockSt) {
+	old, ex := st.locks[key]
+	st.jLocks = append(st.jLocks, lockUndo{key, old, ex})
+	st.locks[key] = l
+}
+
+func (st *State) setCovered(key string) {
+	if !st.covered[key] {
+		st.jCovered = append(st.jCovered, key)
+	}
+	st.covered[key] = true
+}
+
+// undoInto rolls the clone `alt` (taken in the middle of an instruction) back to the state the instruction started in.
+func (st *State) undoInto(alt *State) {
+	for i := len(st.jHeap) - 1; i >= 0; i-- {
+		alt.heap[st.jHeap[i].obj] = st.jHeap[i].old
+	}
+	if st.jHeapLen < len(alt.heap) {
+		alt.heap = alt.heap[:st.jHeapLen]
+	}
+	for i := len(st.jLocks) - 1; i >= 0; i-- {
+		u := st.jLocks[i]
+		if u.existed {
+			alt.locks[u.key] = u.old
+		} else {
+			delete(alt.locks, u.key)
+		}
+	}
+	for _, k := range st.jCovered {
+		delete(alt.covered, k)
+	}
+	alt.preempts = st.jPreempts
+	if len(alt.gs) > len(st.jG) {
+		alt.gs = alt.gs[:len(st.jG)]
+	}
+	for i := range alt.gs {
+		fr := alt.gs[i].frames
+		g := st.jG[i]
+		g.frames = fr
+		*alt.gs[i] = g
+	}
 }
 
 func (st *State) clone() *State {
@@ -215,4 +301,4 @@ func setPath(v Value, path []int, nv Value) Value {
 }
 
 func (st *State) load(p Ptr) Value  { return getPath(st.heap[p.obj], p.path) }
-func (st *State) store(p Ptr, v Value) { st.heap[p.obj] = setPath(st.heap[p.obj], p.path, v) }
+func (st *State) store(p Ptr, v Value) { st.setHeap(p.obj, setPath(st.heap[p.obj], p.path, v)) }
